@@ -343,6 +343,7 @@ retry:
 				// was not linked yet, so unlink it here. Otherwise the node can be
 				// reclaimed while it is still reachable at this level.
 				if _, deleted = x.getNext(i); deleted {
+					vyield(SiteInsertRelinkedMarked)
 					s.findPath(itm, insCmp, buf, sts)
 					goto finished
 				}
